@@ -59,6 +59,7 @@ structure Sess where
   accepted : HashMap String (List Accepted) := {} -- per log, newest first
   truth : HashMap String (List (String × Nat × Bytes)) := {} -- per log: (branch, size, root)
   expCtr : HashMap String Wit.Ctr := {}           -- counters predicted from impl verdicts
+  lastRet : HashMap String String := {}            -- per log: hex of what the last accepted update returned
   hwv : Option (Nat × String) := none             -- bastion endpoint: index of the witness key it verifies with, vid
 
 structure St where
